@@ -19,7 +19,7 @@ func init() {
 			"C20.2 the advertised address is the bound socket's own LocalAddr()/Addr() with only its IP overwritten by RelayAddress (range, static) or untouched (none), and a requested port is passed unchanged to the bind call; " +
 			"C20.3 clean failure: every return with a non-nil error returns no socket, and the retry loops are bounded by MaxRetries; " +
 			"C20.5 requested ports are not invented: a non-zero RequestedPort handed to a generator is a port a generator bound before (read from the address it returned), or that port + 1 (the RFC 5766 reservation pair); C20.6 the socket / listener an allocation relays on is the result of a generator call made for that allocation, never one taken from a table or field where another request could find it too; C20.7 a socket obtained from the generator inside a loop (the even-port probe) is closed in the same iteration, not by a defer that runs when the whole search returns — held probes fill the range and make the search fail while ports are free; " +
-			"C20.4 UDP relay sockets are bound by a plain ListenPacket: SO_REUSEPORT (reuseport.Control) is referenced only by the TCP listener/dialer paths, so a busy UDP port is refused by the kernel rather than shared.",
+			"C20.4 UDP relay sockets are bound by a plain ListenPacket: SO_REUSEPORT (reuseport.Control) is referenced only by the TCP listener/dialer paths, so a busy UDP port is refused by the kernel rather than shared. C20.8 nothing rewrites MinPort/MaxPort except a tightening that provably keeps MinPort ≤ MaxPort.",
 		NotCovered: "that two live sockets cannot share a port is the kernel's bind() semantics; the quality of the random source; a MinPort > MaxPort configuration (outside the property's precondition).",
 		Run:        runC20,
 	})
@@ -754,35 +754,14 @@ func runC20(c *Ctx) {
 			c.Bad("C20.3", "turn."+rangeT, "MaxRetries stores", "-", bad)
 		}
 	}
-	// C20.4
-	{
-		for _, fn := range w.ModFns {
-			w.eachInstr(fn, func(in ssa.Instruction) {
-				for _, op := range in.Operands(nil) {
-					f, ok := (*op).(*ssa.Function)
-					if !ok || !strings.HasSuffix(f.String(), "reuseport.Control") {
-						continue
-					}
-					root := rootFn(fn)
-					name := root.Name()
-					c.Anchor("C20.4", fname(root))
-					if name == "AllocateListener" || name == "AllocateConn" {
-						c.OK("C20.4", fname(fn), "reuseport.Control", w.instrPos(in), "TCP listener/dialer path (RFC 6062 needs to share the relayed address between listener and outgoing connections)")
-					} else if ok, why := reusePortBehindFlag(w, fn, in); ok {
-						c.OK("C20.4", fname(fn), "reuseport.Control", w.instrPos(in), why)
-					} else {
-						c.Bad("C20.4", fname(fn), "reuseport.Control", w.instrPos(in), "SO_REUSEPORT is enabled on "+name+": a UDP relay port still held by a live allocation can be bound a second time, so two allocations share a relay port")
-					}
-				}
-			})
-		}
-	}
+	ruleReusePortSites(c, "C20.4")
 	if n := len(c.Notes); n == 0 {
 		c.Notes = append(c.Notes, "advisory: in the UDP AllocatePacketConn paths the socket is not closed when conn.LocalAddr() is not a *net.UDPAddr (unreachable with the standard net package)")
 	}
 	ruleRequestedPortsNotInvented(c, "C20.5")
 	ruleRelaySocketFresh(c, "C20.6")
 	ruleProbeReleasedPerIteration(c, "C20.7")
+	ruleValidateKeepsRange(c, "C20.8")
 }
 
 func isClosureCall(w *World, call *ssa.Call) bool {
@@ -1315,5 +1294,33 @@ func ruleProbeReleasedPerIteration(c *Ctx, rule string) {
 	if n == 0 {
 		c.Anchor(rule, "-")
 		c.Bad(rule, "-", "probe socket", "-", "no generator call inside a loop found (GetRandomEvenPort's probe): anchor gone")
+	}
+}
+
+// ruleReusePortSites (C20.4, =C19.10): SO_REUSEPORT only where RFC 6062 needs it.
+func ruleReusePortSites(c *Ctx, rule string) {
+	w := c.W
+	if rule != "C20.4" {
+		c.Rule(rule, "(=C20.4) reuseport.Control is referenced only by the TCP listener/dialer paths of the generators: a UDP relay port held by a live allocation cannot be bound a second time, so no two live allocations report one relayed address", 3)
+	}
+	for _, fn := range w.ModFns {
+		w.eachInstr(fn, func(in ssa.Instruction) {
+			for _, op := range in.Operands(nil) {
+				f, ok := (*op).(*ssa.Function)
+				if !ok || !strings.HasSuffix(f.String(), "reuseport.Control") {
+					continue
+				}
+				root := rootFn(fn)
+				name := root.Name()
+				c.Anchor(rule, fname(root))
+				if name == "AllocateListener" || name == "AllocateConn" {
+					c.OK(rule, fname(fn), "reuseport.Control", w.instrPos(in), "TCP listener/dialer path (RFC 6062 needs to share the relayed address between listener and outgoing connections)")
+				} else if ok, why := reusePortBehindFlag(w, fn, in); ok {
+					c.OK(rule, fname(fn), "reuseport.Control", w.instrPos(in), why)
+				} else {
+					c.Bad(rule, fname(fn), "reuseport.Control", w.instrPos(in), "SO_REUSEPORT is enabled on "+name+": a UDP relay port still held by a live allocation can be bound a second time, so two allocations share a relay port")
+				}
+			}
+		})
 	}
 }
